@@ -103,13 +103,16 @@ func (m *Monitors) audit(n *Node, h int64, b *types.Block, meta *types.BlockMeta
 			if !bytes.Equal(b.AppHash, AppHashFor(prev)) {
 				bad("app-hash", "AppHash is not the application hash after block h-1")
 			}
+			if !bytes.Equal(b.ReceiptsHash, ReceiptsHashFor(prev)) {
+				bad("receipts-hash", "ReceiptsHash is not the application's receipts hash of block h-1")
+			}
 			if msg := m.auditCommit(b.LastCommit, h-1, pid); msg != "" {
 				bad("last-commit", "embedded last commit: "+msg)
 			}
 		}
 	}
-	if len(b.ReceiptsHash) != 0 {
-		bad("receipts-hash", "ReceiptsHash differs from the application's (empty) receipts hash")
+	if h == 1 && len(b.ReceiptsHash) != 0 {
+		bad("receipts-hash", "first block carries a receipts hash")
 	}
 	id := types.BlockID{Hash: meta.Hash, PartsHeader: meta.PartsHeader}
 	if !bytes.Equal(b.Hash(), meta.Hash) {
